@@ -227,8 +227,33 @@ def signature_rule(repo, rep):
                          od, oi, od[0] if od else '?'), expected="['hemisphere', 'ellipsoid', ...] in both", actual='%s / %s' % (od, oi))
 
 
+def first_estimate_rule(repo, rep):
+    """the plane first estimate of point 2 is radiations(east1, north1, grid bearing in DEGREES, grid distance): the iteration forgets a poor
+    seed, but the seed itself goes through grid2geo inside line_sf - a bearing handed over in another unit sends it grid_dist due north,
+    and for a southern point closer to the equator than the line is long the seed northing passes 10 000 000 and the routine raises for
+    a valid line"""
+    f = repo.func('geodepy.geodesy', 'vincdir_utm')
+    ps = [p.name for p in f.params]
+    key = 'R-UNITS::geodepy/geodesy.py::vincdir_utm::first-estimate'
+    calls = [c for c in ast.walk(f.node) if isinstance(c, ast.Call) and getattr(c.func, 'id', '') == 'radiations']
+    if not calls:
+        rep.holds('R-UNITS', key, where(f, f.node), 'vincdir_utm takes no plane first estimate through radiations', work=False)
+        return
+    for c in calls[:1]:
+        want = ps[1:5]
+        got = [stmt_text(a) for a in c.args[:4]]
+        if got == want:
+            rep.holds('R-UNITS', key, where(f, c), 'the first estimate is radiations(%s): easting, northing, grid bearing (degrees) and grid distance as given' % ', '.join(got))
+        else:
+            rep.violated('R-UNITS', key, where(f, c), 'the plane first estimate is `%s`: radiations / polar2rect take the bearing in decimal degrees and the arguments as given - with `%s` the '
+                         'seed lies %s away from where the line goes, and where that is beyond the equator (a southern point 1 nearer to it than the line is long) grid2geo rejects the seed '
+                         'northing: vincdir_utm raises for a valid line' % (stmt_text(c)[:70], [g_ for g_, w_ in zip(got, want) if g_ != w_][0] if any(g_ != w_ for g_, w_ in zip(got, want)) else '?', 'grid_dist'),
+                         expected='radiations(%s)' % ', '.join(want), actual=stmt_text(c)[:80])
+
+
 def direct_rules(repo, rep):
     hemisphere_of_point2_rule(repo, rep)
+    first_estimate_rule(repo, rep)
     f = repo.func('geodepy.geodesy', 'vincdir_utm')
     rep.analysed(f)
     w = where(f, f.node)
